@@ -58,7 +58,10 @@ fn build(has: &dyn Fn(usize) -> bool, vals: &Vals, img_kind: usize, xml_mode: u8
     }
     let f = next();
     if has(f) {
-        ops.push(Op::Ext("ext".into(), vals.s(f)));
+        // an empty URL cannot be registered (a prefix cannot be bound to the empty namespace
+        // name): the attempt must be refused and leave no trace
+        let url = vals.s(f);
+        ops.push(if url.is_empty() { Op::ExtTry("ext".into(), url) } else { Op::Ext("ext".into(), url) });
         ops.push(Op::Ext("e-2_x".into(), "http://example.com/second".into()));
     }
     // cloud
@@ -260,6 +263,33 @@ pub fn floats(ctx: &Ctx) {
     let vals = Vals { strings: vec!["s".into()], s0: 0, floats, f0, pose_kind: 0 };
     let p = build(&|_| true, &vals, kind, 0);
     if judge(ctx, &p) {
+        ctx.nontrivial();
+    }
+}
+
+/// prototype data types: every catalogue type (floats with none / both / one-sided limits, integer
+/// and scaled-integer ranges of every width class) as coordinate, intensity, colour, time stamp and
+/// extension record; the prototype read back must carry the same minimum/maximum/scale/offset
+pub fn types(ctx: &Ctx) {
+    let types = crate::cat::types();
+    let ti = ctx.pick("type", types.len());
+    let slot = ctx.pick("slot", 5);
+    let ty = types[ti].clone();
+    let mut proto = crate::cat::xyz(crate::cat::F32);
+    match slot {
+        0 => proto = crate::cat::xyz(ty.clone()),
+        1 => proto.push(crate::cat::rec("intensity", ty.clone())),
+        2 => {
+            proto.push(crate::cat::rec("colorRed", ty.clone()));
+            proto.push(crate::cat::rec("colorGreen", ty.clone()));
+            proto.push(crate::cat::rec("colorBlue", ty.clone()));
+        }
+        3 => proto.push(crate::cat::rec("timeStamp", ty.clone())),
+        _ => proto.push(crate::cat::ext_rec("ext", "attr", ty.clone())),
+    }
+    let p = Program { guid: "g".into(), ops: vec![Op::Ext("ext".into(), "http://example.com/ext".into()), Op::Cloud(cloud(proto, 2, 3))], ..Default::default() };
+    if roundtrip(ctx, &p, P).is_some() {
+        ctx.count(format!("slot:{slot}"));
         ctx.nontrivial();
     }
 }
